@@ -215,6 +215,15 @@ pub fn run_scenario(sc: &Scen, record_only: bool) -> Result<Vec<String>, String>
         if !is_cloud {
             install_failpoints(sc.point, fault);
         }
+        // what a snapshot taken after A's sync contains: A's tasks, in the documented encoding
+        let snapshot_bytes: Vec<u8> = {
+            use std::io::Write;
+            let t = tasks_of(&mut a).await;
+            let j: serde_json::Map<String, serde_json::Value> = t.iter().map(|(u, p)| (u.to_string(), serde_json::json!(p))).collect();
+            let mut e = flate2::write::ZlibEncoder::new(Vec::new(), flate2::Compression::default());
+            e.write_all(serde_json::to_string(&j).unwrap().as_bytes()).unwrap();
+            e.finish().unwrap()
+        };
         let mut stopped = false;
         {
             let fut = async {
@@ -227,7 +236,8 @@ pub fn run_scenario(sc: &Scen, record_only: bool) -> Result<Vec<String>, String>
                         while let GetVersionResult::Version { version_id, .. } = probe.get_child_version(cur).await.map_err(|e| format!("{e:#}"))? {
                             cur = version_id;
                         }
-                        probe.add_snapshot(cur, b"not-a-real-snapshot".to_vec()).await.map_err(|e| format!("{e:#}"))
+                        // a real snapshot of the state at that version (A has just synced to it)
+                        probe.add_snapshot(cur, snapshot_bytes.clone()).await.map_err(|e| format!("{e:#}"))
                     }
                 }
             };
